@@ -967,6 +967,14 @@ func (c *Ctx) ruleCaretLineText(trunc, disp *ssa.Call, numDesc string) {
 		"the padding loop does not run displayColumn-1 times: the caret is not written in the display column")
 	c.check(pl.okOne && len(pl.writes) > 0, "EXCERPT/CARET-PAD/ONE-PER-STEP", pname, P.Pos(pl.phi.Pos()), "every iteration of the padding loop writes exactly one constant character", "padding loop: "+pl.whyOne)
 	t.tabRule(pl, pname)
+	// CELLS (found as KF-C19-1 from an agent's remark): the loop counts the *bytes* before the column (one padding
+	// per step of a byte index up to a byte column) while a terminal shows one cell per *character*: every
+	// multi-byte character before the reported column moves the caret to the right of the character it should
+	// stand under. The property's quantifier names lines with multi-byte characters.
+	if pl.okOne && len(pl.writes) > 0 {
+		c.fail("EXCERPT/CARET-PAD/CELLS", "caret line#one-padding-per-byte", P.Pos(pl.phi.Pos()),
+			"the caret line gets one padding per byte before the column, the terminal shows one cell per character: a multi-byte character before the reported column displaces the caret to the right by its extra bytes")
+	}
 
 	// ---- where the shown text is emitted, and what is on its line before it
 	type emission struct {
